@@ -77,7 +77,39 @@ def inbound_clauses(pre, post, m, sender, target):
     cl.append(("disconnect.reported_once", Implies(disconnected, n_disc == 1)))
     cl.append(("disconnect.not_reported_while_connected", Implies(Not(disconnected), n_disc == 0)))
     cl.append(("disconnect.releases_socket", Implies(disconnected, Not(post.writer))))
+    # (support of reach(): the dispatcher changes the role only on the first message of a fresh connection and never
+    #  enters LOGON_INITIAL_SENT itself)
+    cl.append(("reach.role_changes_only_on_first_message", Implies(Not(Eq(post.role, pre.role)), Eq(pre.st, NET))))
+    cl.append(("reach.never_enters_logon_sent", Implies(Eq(post.st, SENT), Eq(pre.st, SENT))))
     return cl
+
+
+def syntactic(repo):
+    """LOGON_INITIAL_SENT is handed to _state_set only in send_msg (the site send.sets_initiator is proved on);
+    connection state / role are assigned directly only where the clauses above look."""
+    import ast
+    set_sites, role_sites = [], []
+    for mn in ("asyncfix.connection", "asyncfix.connection_client", "asyncfix.connection_server"):
+        m = repo.module(mn)
+        for cls in [n for n in m.tree.body if isinstance(n, ast.ClassDef)]:
+            for fn in [n for n in cls.body if isinstance(n, (ast.FunctionDef, ast.AsyncFunctionDef))]:
+                where = f"{mn}.{cls.name}.{fn.name}"
+                for n in ast.walk(fn):
+                    if isinstance(n, ast.Call) and any(isinstance(a, ast.Attribute) and a.attr == "LOGON_INITIAL_SENT"
+                                                       for a in list(n.args) + [k.value for k in n.keywords]):
+                        set_sites.append(where)
+                    if isinstance(n, ast.Assign) and any(isinstance(t, ast.Attribute) and t.attr == "_connection_state"
+                                                         for t in n.targets):
+                        if any(isinstance(x, ast.Attribute) and x.attr == "LOGON_INITIAL_SENT" for x in ast.walk(n.value)):
+                            set_sites.append(where)
+                    if isinstance(n, ast.Assign) and any(isinstance(t, ast.Attribute) and t.attr == "_connection_role"
+                                                         for t in n.targets) and fn.name != "__init__":
+                        role_sites.append(where)
+    want = ["asyncfix.connection.AsyncFIXConnection.send_msg"]
+    return [("sites.logon_sent_entered_only_in_send_msg", sorted(set(set_sites)) == want, f"sites: {set_sites}"),
+            ("sites.role_assigned_only_in_send_msg_and_dispatcher",
+             sorted(set(role_sites)) == ["asyncfix.connection.AsyncFIXConnection._process_message"] + want,
+             f"sites: {role_sites}")]
 
 
 def explore_inbound(I, states):
@@ -305,5 +337,6 @@ PROPERTY = Property(
     ],
     trusted_base=["pyvc", "z3 5.1.0"],
     functions=FUNCS,
+    syntactic=syntactic,
     notes="loop-free: complete over state x role x message type x header defects x sequence numbers (unbounded)",
 )
